@@ -22,6 +22,7 @@
 //	L:<start>:<end>          List                S:<start>:<end>  RangeScan
 //	N:<from>                 ReadNextNotifications(from) (never waits: "err:blocked" instead)
 //	T:<term>:<0|1>           UpdateTerm(term, {NotificationsEnabled})     E:<0|1>  EnableNotifications
+//	B:<seed>                 busy process from here on (c12_busy.go): other pool users run inside every put/delete; model: no-op
 //	R                        Close + NewDB on the same directory (disk cases only)   C  ReadCommitOffset
 //	D                        full ordered dump of every key            H        md5 of the dump text
 //	IG:<name>:<cmp>:<key>:<incl>  IL:<name>:<start>:<end>  IS:<name>:<start>:<end>
@@ -634,6 +635,7 @@ type runner struct {
 	lastOff int64
 	ops     []string
 	res     []string
+	busy    *c12Busy // non-nil after op B: the process is busy while requests are applied (c12_busy.go)
 }
 
 func (r *runner) processWrite(req *proto.WriteRequest, off int64, ts uint64) (resp *proto.WriteResponse, err error, panicked bool) {
@@ -642,7 +644,12 @@ func (r *runner) processWrite(req *proto.WriteRequest, off int64, ts uint64) (re
 			panicked = true
 		}
 	}()
-	resp, err = r.e.db.ProcessWrite(req, off, ts, server.WrapperUpdateOperationCallback)
+	var cb kv.UpdateOperationCallback = server.WrapperUpdateOperationCallback
+	if r.busy != nil {
+		r.busy.refresh()
+		cb = r.busy
+	}
+	resp, err = r.e.db.ProcessWrite(req, off, ts, cb)
 	return
 }
 
@@ -787,6 +794,13 @@ func (r *runner) exec(op string) string {
 	case "E":
 		db.EnableNotifications(f[1] == "1")
 		return "ok"
+	case "B":
+		seed, err := strconv.ParseUint(f[1], 10, 64)
+		hx.Must(err)
+		if r.busy == nil {
+			r.busy = newC12Busy(r, seed)
+		}
+		return "ok"
 	case "R":
 		if !r.e.disk {
 			panic("R op on an in-memory case")
@@ -867,7 +881,12 @@ func (r *runner) do(op string) string {
 func runCase(o *hx.Out, kind string, shard int64, disk bool, tag string, ntKey string, body func(r *runner)) {
 	e := newEnv(shard, disk)
 	r := &runner{o: o, e: e, hostile: kind == "hseq", caseTag: tag, lastOff: -1}
-	defer func() { r.e.close() }()
+	defer func() {
+		r.e.close()
+		if r.busy != nil {
+			r.busy.close()
+		}
+	}()
 	if kind == "seq" {
 		r.ref = newRef()
 	}
